@@ -263,7 +263,7 @@ def run_pipes(ctx, r, drv, hp):
         t = g.term(rng.randrange(1, 5))
         sx = show(t)
         p = rng.random()
-        mode = 'run' if p < 0.86 else ('sw' if p < 0.94 else 'sd')
+        mode = 'run' if p < 0.74 else ('rd' if p < 0.86 else ('sw' if p < 0.94 else 'sd'))
         cases.append((str(i), 'run', sx))
         if mode != 'run':
             cases.append(('%d%s' % (i, mode), mode, sx))
@@ -333,10 +333,10 @@ def run_pipes(ctx, r, drv, hp):
         except OverflowError:
             want = None
         fclass = '+'.join(f for f in feats if f in ('SP', 'ST', 'WV', 'WA', 'ES')) or 'plain'
-        if mode == 'run':
+        if mode in ('run', 'rd'):
             if res in ('abort', 'segv', 'hang', 'exit'):
                 chan = 'stopped' if want is not None and ('S',) in want else 'other'
-                r.hits.append(Hit('monitor', 'C03:pipe:%s:%s:%s' % (res, fclass, chan),
+                r.hits.append(Hit('monitor', 'C03:pipe%s:%s:%s:%s' % ('' if mode == 'run' else ':destroy_in_receiver', res, fclass, chan),
                                   'pipeline %s: process %s instead of one completion signal (denoted: %s)'
                                   % (sx, res, sorted(cstr(c) for c in (want or []))), rep))
             else:
@@ -357,7 +357,7 @@ def run_pipes(ctx, r, drv, hp):
                     r.hits.append(Hit('monitor', 'C03:pipe:exception_identity',
                                       'pipeline %s: error %s arrived as a different exception object' % (sx, res), rep))
         else:
-            twin = runres.get(re.sub(r'(sw|sd)$', '', cid))
+            twin = runres.get(re.sub(r'(sw|sd|rd)$', '', cid))
             if want is not None:
                 okset = {mode_str(mode, c) for c in want}
                 if res not in okset:
@@ -377,10 +377,10 @@ def run_pipes(ctx, r, drv, hp):
         mres = mo[cid][2:]
         dens = set(mden.get(cid, '').split(';'))
         rep['model'] = mres
-        if mode == 'run' and want is not None and dens != {cstr(c) for c in want}:
+        if mode in ('run', 'rd') and want is not None and dens != {cstr(c) for c in want}:
             r.hits.append(Hit('model', 'C03:model:den', 'Coq den of %s is %s, the reference says %s'
                               % (sx, sorted(dens), sorted(cstr(c) for c in want)), rep))
-        if is_async and mode == 'run':
+        if is_async and mode in ('run', 'rd'):
             ok = res in dens
         else:
             ok = (res == mres) or (is_async and mode != 'run' and res in {model_mode_str(mode, c) for c in dens})
